@@ -114,6 +114,25 @@ def oracle(ck):
     out = df_detrend(df, columns=["a", "s"], order=2)
     if not ("a_detrended" in out and "b_detrended" not in out and "s_detrended" not in out and np.allclose(out["a_detrended"].to_numpy(), polynomial_detrend(df["a"].to_numpy(), order=2)) and np.array_equal(out["a"].to_numpy(), df["a"].to_numpy())):
         ck.violation("df_detrend does not detrend exactly the selected numeric columns", dict(columns=["a", "s"]), tag="df")
+    # long records: the residual is orthogonal to the polynomials on ALL samples
+    for nlong in (250000, 600001):
+        gL = np.random.default_rng(ck.rng.randint(0, 2 ** 31))
+        xL = gL.standard_normal(nlong)
+        tL = (np.arange(nlong) - nlong / 2) / nlong
+        for order in (1, 3):
+            rL = polynomial_detrend(xL, order=order)
+            worstL = max(abs(float(np.dot(rL, tL ** k))) / (np.linalg.norm(rL) * np.linalg.norm(tL ** k) + 1e-300) for k in range(order + 1))
+            if worstL > 1e-7:
+                ck.violation("order-%d detrend of a %d-sample record is not orthogonal to polynomials of degree <= %d (normalised inner product %g)" % (order, nlong, order, worstL), dict(n=nlong, order=order), tag="orthogonal-long")
+    # grids at nano/micro-hertz (bin widths far below 1e-8 Hz): still the trapezoid over the in-band points
+    for lab, fg, bands in (("logspace(-9,-7)", np.logspace(-9, -7, 40), [(None, None), (2e-9, 5e-8)]), ("1e-7..1 Hz log grid", np.logspace(-7, 0, 80), [(1e-7, 4e-7), (1.2e-7, 9e-7), (1e-3, 1e-1)])):
+        ag = 1.0 + 0.5 * np.cos(np.arange(len(fg)) * 0.7)
+        for lo, hi in bands:
+            sel = np.ones(len(fg), bool) if lo is None else (fg >= lo) & (fg <= hi)
+            want = math.sqrt(float(np.sum(0.5 * (ag[sel][1:] ** 2 + ag[sel][:-1] ** 2) * np.diff(fg[sel])))) if sel.sum() > 1 else 0.0
+            got = float(integral_rms(fg, ag, None if lo is None else (lo, hi)))
+            if abs(got - want) > 1e-9 * (want + 1e-300):
+                ck.violation("integral_rms on the grid %s, band %r: %r but the trapezoid over the in-band points gives %r" % (lab, (lo, hi), got, want), dict(grid=lab, band=(lo, hi)), tag="tiny-grid")
     # grids that are not float64 (integer frequencies, float32 arrays): band edges are compared as the numbers given, not cast to the grid's type
     for lab, fg in (("integer grid", np.arange(0, 51)), ("float32 grid", np.linspace(0, 5, 51).astype(np.float32))):
         ag = 1.0 + 0.3 * np.sin(np.arange(len(fg)))
